@@ -182,7 +182,8 @@ theorem reseed_fresh_all (r : Rng) (h : List OpX) (s : UInt64) (ops : List OpX) 
     Rng.step]
   exact runX_sim (setLocalSeed_sim_create _ s) ops
 
-/-- As coded (finding F200): `RNG` is copyable, and the copy shares the original's `SphericalData`, which is bound to
+/-- The code *before* /repo af02ab991 (finding F200, kept as a witness about the former implicit copy; the driver models
+it when the tree under test declares no `RNG(const RNG&)`): `RNG` is copyable, and the copy shares the original's `SphericalData`, which is bound to
 the *original's* `generator_`.  So for a copy `k` of object `o`, whatever is done to `k` — in particular
 `k.setLocalSeed(s)` for any `s` — has no influence on what `k.uniformNormalVector()` returns, and the call leaves `k`'s
 own generator where it was: the "reseed reproduces the stream" clause fails for the sphere-based routines of a copy. -/
@@ -190,6 +191,17 @@ theorem copy_sphere_ignores_own_seed (rngs : Array Rng) (k o dim : Nat) (hko : k
     (sphereAt (rngs.setIfInBounds k r') o dim).1 = (sphereAt rngs o dim).1 ∧
       (sphereAt rngs o dim).2[k]? = rngs[k]? :=
   ⟨sphereAt_ignores_other rngs k o dim hko r', sphereAt_leaves_other rngs k o dim hko⟩
+
+/-- The fixed code (/repo af02ab991, `RNG(const RNG&)` re-binds a `SphericalData` of its own): a copy is a new object
+bound to its own generator.  Its spherical routines are a function of the copy's own engine state (the original's at
+the moment of the copy), they leave the original alone, and reseeding the copy resets them: after
+`copy.setLocalSeed(s)` the copy's `uniformNormalVector` prints what a fresh `RNG(s)` prints. -/
+theorem copy_sphere_uses_own_generator (rngs : Array Rng) (k dim : Nat) (h : k < rngs.size) (s : UInt64) :
+    (sphereAt (rngs.push rngs[k]) rngs.size dim).1 = (rngs[k].uniformNormalVector dim).1 ∧
+      (sphereAt (rngs.push rngs[k]) rngs.size dim).2[k]? = some rngs[k] ∧
+      (sphereAt ((rngs.push rngs[k]).setIfInBounds rngs.size (rngs[k].setLocalSeed s)) rngs.size dim).1 =
+        ((Rng.create s).uniformNormalVector dim).1 :=
+  sphereAt_fixed_copy rngs k dim h s
 
 /-- … whereas for an object that is not a copy the routine is `uniformNormalVector` on its own generator. -/
 theorem sphere_of_original_uses_own_generator (rngs : Array Rng) (o dim : Nat) (h : o < rngs.size) :
